@@ -126,7 +126,8 @@ class RandomPolicy:
 class Sched:
 
   def __init__(self, policy=None, max_steps=200000, trace_events=False,
-               quiet_logging=True, start_time=1000.0, max_vtime=200000.0, early_expiry=0.0):
+               quiet_logging=True, start_time=1000.0, max_vtime=200000.0, early_expiry=0.0,
+               trace_files=()):
     self.policy = policy or Sequential()
     self.now = start_time
     self.t0 = start_time
@@ -138,6 +139,11 @@ class Sched:
     # handles_expiry as the extra alternative "<name>~" (the DFS counts it as a
     # preemption).
     self.early_expiry = early_expiry
+    # Statement-level scheduling points: every line executed by a controlled
+    # thread in a source file whose path ends with one of these suffixes is a
+    # scheduling point (sys.settrace).  For check-then-act code that touches no
+    # synchronisation primitive.
+    self.trace_files = tuple(trace_files)
     self.states = []
     self.by_thread = {}
     self.current = None
@@ -281,6 +287,21 @@ class Sched:
           return bool(cond is None or cond())
       return st.result
 
+  def _tracer(self):
+    files = self.trace_files
+    sched = self
+
+    def local(frame, event, arg):
+      if event == 'line' and sched.active:
+        sched.yield_('line %s:%d' % (frame.f_code.co_name, frame.f_lineno), deliver=False)
+      return local
+
+    def glob(frame, event, arg):
+      if event == 'call' and frame.f_code.co_filename.endswith(files):
+        return local
+      return None
+    return glob
+
   def interrupt(self, idx, fn):
     """Arrange for fn() to run in thread number idx (0 = main) at its next
     scheduling point, like a signal handler would."""
@@ -339,6 +360,8 @@ class Sched:
           return
         exc, st.pending_exc = st.pending_exc, None
         if exc is None:
+          if sched.trace_files:
+            sys.settrace(sched._tracer())
           orig_run()
       except _Abandon:
         pass
